@@ -19,6 +19,7 @@ import (
 	"html"
 	"io"
 	"log"
+	"math"
 	"math/rand"
 	"net/http"
 	"net/http/httptest"
@@ -296,18 +297,32 @@ func (w *world) observe(rec *httptest.ResponseRecorder, ran bool) obsReply {
 			if ck.Expires.IsZero() || ck.Expires.After(saml.TimeNow()) {
 				oc.Kind = 3 // emptied but not expired: not a clearing cookie
 			}
-		} else if t, mapped := parseTok(ck.Value, w.key.term, true); mapped && t != nil {
+		} else {
+			// lifetime: the registered claims, straight from the JWT
+			oc.Iat, oc.Exp = registeredTimes(ck.Value)
+			// kind: the marker claims; what the token MEANS (index, request id, URI, subject): the library's own codecs
+			t, mapped := parseTok(ck.Value, w.key.term, true)
+			trk, ses := w.libTracking(ck.Value), w.libSession(ck.Value)
+			isT := mapped && t != nil && t.RM && !t.SM
+			isS := mapped && t != nil && t.SM && !t.RM
+			if !isT && !isS && (!mapped || t == nil) {
+				isT, isS = trk != nil && ses == nil, ses != nil && trk == nil
+			}
 			switch {
-			case t.RM && !t.SM:
-				oc.Kind, oc.A, oc.B, oc.C = 1, t.Sub, t.ID, t.URI
-			case t.SM && !t.RM:
-				oc.Kind, oc.A = 2, t.Sub
-			}
-			if t.Iat != nil {
-				oc.Iat = *t.Iat
-			}
-			if t.Exp != nil {
-				oc.Exp = *t.Exp
+			case isT:
+				oc.Kind = 1
+				if trk != nil {
+					oc.A, oc.B, oc.C = trk.Index, trk.SAMLRequestID, trk.URI
+				} else if t != nil {
+					oc.A, oc.B, oc.C = t.Sub, t.ID, t.URI
+				}
+			case isS:
+				oc.Kind = 2
+				if ses != nil {
+					oc.A = ses.Subject
+				} else if t != nil {
+					oc.A = t.Sub
+				}
 			}
 		}
 		o.Cookies = append(o.Cookies, oc)
@@ -316,6 +331,69 @@ func (w *world) observe(rec *httptest.ResponseRecorder, ran bool) obsReply {
 }
 
 func htmlUnescape(s string) string { return html.UnescapeString(s) }
+
+// iat and exp (whole seconds, 0 when absent) of a JWT, without looking at anything else
+func registeredTimes(token string) (iat, exp int64) {
+	m := probeClaims(token)
+	num := func(k string) int64 {
+		if f, ok := m[k].(float64); ok {
+			return int64(math.Floor(f))
+		}
+		return 0
+	}
+	return num("iat"), num("exp")
+}
+
+func (w *world) libTracking(value string) (tr *samlsp.TrackedRequest) {
+	defer func() {
+		if r := recover(); r != nil {
+			tr = nil
+		}
+	}()
+	tr, err := w.mw.RequestTracker.(samlsp.CookieRequestTracker).Codec.Decode(value)
+	if err != nil {
+		return nil
+	}
+	return tr
+}
+
+func (w *world) libSession(value string) (cl *samlsp.JWTSessionClaims) {
+	defer func() {
+		if r := recover(); r != nil {
+			cl = nil
+		}
+	}()
+	s, err := w.mw.Session.(samlsp.CookieSessionProvider).Codec.Decode(value)
+	if err != nil {
+		return nil
+	}
+	if c, ok := s.(samlsp.JWTSessionClaims); ok {
+		return &c
+	}
+	return nil
+}
+
+// learnLayout lets the harness learn the private claim names from tokens the real codecs mint
+func (w *world) learnLayout() {
+	setClock(t0C17)
+	sp := w.mw.Session.(samlsp.CookieSessionProvider)
+	rt := w.mw.RequestTracker.(samlsp.CookieRequestTracker)
+	discoverLayout(func(an, av string) (s string) {
+		defer func() { recover() }()
+		a := &saml.Assertion{Subject: &saml.Subject{NameID: &saml.NameID{Value: "probe"}},
+			AttributeStatements: []saml.AttributeStatement{{Attributes: []saml.Attribute{{Name: an, Values: []saml.AttributeValue{{Value: av}}}}}}}
+		sess, err := sp.Codec.New(a)
+		if err != nil {
+			return ""
+		}
+		s, _ = sp.Codec.Encode(sess)
+		return s
+	}, func(id, uri string) (s string) {
+		defer func() { recover() }()
+		s, _ = rt.Codec.Encode(samlsp.TrackedRequest{Index: "probe-index", SAMLRequestID: id, URI: uri})
+		return s
+	})
+}
 
 func ocTerm(c obsCookie) string {
 	return fmt.Sprintf("{| oc_name := %s; oc_kind := %d; oc_a := %s; oc_b := %s; oc_c := %s; oc_iat := %s; oc_exp := %s; oc_httponly := %s; oc_secure := %s; oc_path := %s; oc_max_age := %s |}",
@@ -1336,6 +1414,7 @@ func runC17(c *Ctx) {
 	log.SetOutput(io.Discard)
 	defer log.SetOutput(os.Stderr)
 
+	newWorld(worldCfg{HTTPS: true, MidS: 90}).learnLayout()
 	gcfg := c.Group("cfg", []string{"Tokens", "Middleware"}, "mcfgcase", "check_mcfgcases")
 	gh := c.Group("hist", []string{"Tokens", "Middleware"}, "hcase", "check_hcases")
 
